@@ -610,4 +610,383 @@ theorem totient_nsmul (u : Grp N) : (Nat.totient N.toNat) • u = 0 := by
 
 end order
 
+/-! ### the challenge hash: equal challenges mean equal inputs, or a collision -/
+
+section hash
+
+private theorem compress_size (h : Array UInt32) (blk : Array UInt8) (off : Nat) :
+    (Sha256.compress h blk off).size = 8 := by
+  unfold Sha256.compress
+  simp only [Id.run, bind, pure]
+  rfl
+
+private theorem serialize_length (h : Array UInt32) : (Sha256.serialize h).length = 4 * h.size := by
+  unfold Sha256.serialize
+  rw [List.length_flatMap]
+  simp; omega
+
+private theorem foldl_compress_size (p : Array UInt8) (l : List Nat) (h : Array UInt32) (hs : h.size = 8) :
+    (l.foldl (fun s i => Sha256.compress s p (64 * i)) h).size = 8 := by
+  induction l generalizing h with
+  | nil => exact hs
+  | cons a l ih => exact ih _ (compress_size _ _ _)
+
+/-- The model's SHA-256 always returns 32 bytes (same proof as in `ClRange.lean`). -/
+theorem sha256_length' (m : Bytes) : (sha256 m).length = 32 := by
+  unfold sha256
+  simp only [Id.run, bind, pure]
+  rw [serialize_length]
+  simp
+  have := List.forIn_pure_yield_eq_foldl (m := Id) (l := List.range' 0 ((Sha256.pad m).size / 64))
+    (fun i s => Sha256.compress s (Sha256.pad m) (64 * i)) Sha256.H0
+  simp only [pure] at this
+  rw [this, foldl_compress_size _ _ _ rfl]
+
+private theorem os2ip_foldl_inj (b b' : Bytes) (acc acc' : Nat) (hl : b.length = b'.length)
+    (h : b.foldl (fun acc x => acc * 256 + x.toNat) acc = b'.foldl (fun acc x => acc * 256 + x.toNat) acc') :
+    acc = acc' ∧ b = b' := by
+  induction b generalizing b' acc acc' with
+  | nil =>
+    cases b' with
+    | nil => exact ⟨h, rfl⟩
+    | cons y ys => simp at hl
+  | cons x xs ih =>
+    cases b' with
+    | nil => simp at hl
+    | cons y ys =>
+      simp only [List.length_cons, Nat.add_right_cancel_iff] at hl
+      simp only [List.foldl_cons] at h
+      obtain ⟨h1, h2⟩ := ih ys _ _ hl h
+      have hx := UInt8.toNat_lt x
+      have hy := UInt8.toNat_lt y
+      have h3 : x.toNat = y.toNat := by omega
+      exact ⟨by omega, by rw [UInt8.toNat_inj.mp h3, h2]⟩
+
+/-- OS2IP is injective on strings of equal length. -/
+theorem os2ip_inj_of_length {b b' : Bytes} (hl : b.length = b'.length) (h : os2ip b = os2ip b') :
+    b = b' := (os2ip_foldl_inj b b' 0 0 hl h).2
+
+/-- Equal challenges: equal input tuples, or two tuples with the same decimal concatenation, or a
+SHA-256 collision. -/
+theorem hashInts_inj {l l' : List Int} (h : hashInts l = hashInts l') :
+    l = l' ∨ ConcatAmbiguity ∨ ClHashCollision := by
+  by_cases hl : l = l'
+  · exact Or.inl hl
+  right
+  by_cases hb : l.flatMap decimalBytes = l'.flatMap decimalBytes
+  · exact Or.inl ⟨l, l', hl, hb⟩
+  · right
+    refine ⟨_, _, hb, ?_⟩
+    unfold hashInts at h
+    exact os2ip_inj_of_length (by rw [sha256_length', sha256_length']) (Int.ofNat.inj h)
+
+theorem hashInts_nonneg' (l : List Int) : 0 ≤ hashInts l := by
+  unfold hashInts; exact Int.natCast_nonneg _
+
+end hash
+
+/-! ### the verifier's view: every sub-computation of an accepting (or rejecting) run -/
+
+theorem tapeFree_eq_pure {α} {x : M α} (h : TapeFree x) {t t' : List Draw} {a : α}
+    (hx : x t = .ok (a, t')) : x = pure a := by
+  funext t2
+  exact h.indep hx t2
+
+theorem pw_eq_pure_of_ok {b e n x : Int} {t t' : List Draw} (h : pw b e n t = .ok (x, t')) :
+    pw b e n = pure x := tapeFree_eq_pure (TapeFree.pw b e n) h
+
+theorem powMod_of_pw_eq_pure {b e n x : Int} (h : pw b e n = pure x) : powMod b e n = some x := by
+  have := congrFun h []
+  exact (pw_ok_iff.mp this).1
+
+theorem mixLoop_tapeFree (N : Int) (bases s5 rev : List Int) (U : List Nat) (c : Int)
+    (k i ih ir : Nat) (acc : Int) : TapeFree (mixLoop N bases s5 rev U c k i ih ir acc) := by
+  induction k generalizing i ih ir acc with
+  | zero => exact .pure _
+  | succ k ihk =>
+    unfold mixLoop
+    exact .ite (.bind (.idx _ _) fun _ => .bind (.idx _ _) fun _ => .bind (.pw _ _ _) fun _ => ihk _ _ _ _)
+      (.bind (.idx _ _) fun _ => .bind (.idx _ _) fun _ => .bind (.pw _ _ _) fun _ => ihk _ _ _ _)
+
+/-- Everything `nisp5_MultiAttr_verify_proof` computes on the way to its five hash inputs. -/
+structure View (π : SignaturePoK) (cpk : CommitmentPK) (pk : PublicKey) (bases rev : List Int)
+    (U : List Nat) (n : Nat) where
+  (tCx g0 a itCx ib ib6 ig ig8 cc g7 h1 cw cw4 ih ih2 m4 h3 cx g4 h9 ce : Int)
+  e_tCx : mixLoop pk.N bases π.s5 rev U π.challenge n 0 0 0 1 = pure tCx
+  e_g0 : idx cpk.gBases 0 = pure g0
+  e_a : pw π.Cv.value π.s4 pk.N = pure a
+  e_itCx : divm 1 (tmod tCx pk.N) pk.N = pure itCx
+  e_ib : divm 1 pk.b pk.N = pure ib
+  e_ib6 : pw ib π.s6 pk.N = pure ib6
+  e_ig : divm 1 g0 pk.N = pure ig
+  e_ig8 : pw ig π.s8 pk.N = pure ig8
+  e_cc : pw pk.c (-π.challenge) pk.N = pure cc
+  e_g7 : pw g0 π.s7 pk.N = pure g7
+  e_h1 : pw cpk.h π.s1 pk.N = pure h1
+  e_cw : pw π.Cw.value (-π.challenge) pk.N = pure cw
+  e_cw4 : pw π.Cw.value π.s4 pk.N = pure cw4
+  e_ih : divm 1 cpk.h pk.N = pure ih
+  e_ih2 : pw ih π.s2 pk.N = pure ih2
+  e_m4 : mixLoop pk.N cpk.gBases π.s5 rev U π.challenge n 0 0 0 1 = pure m4
+  e_h3 : pw cpk.h π.s3 pk.N = pure h3
+  e_cx : pw π.Cx.value (-π.challenge) pk.N = pure cx
+  e_g4 : pw g0 π.s4 pk.N = pure g4
+  e_h9 : pw cpk.h π.s9 pk.N = pure h9
+  e_ce : pw π.Ce.value (-π.challenge) pk.N = pure ce
+
+namespace View
+variable {π : SignaturePoK} {cpk : CommitmentPK} {pk : PublicKey} {bases rev : List Int}
+  {U : List Nat} {n : Nat} (v : View π cpk pk bases rev U n)
+
+def in1 : Int := tmod (v.a * v.itCx * v.ib6 * v.ig8 * v.cc) pk.N
+def in2 : Int := tmod (v.g7 * v.h1 * v.cw) pk.N
+def in3 : Int := tmod (v.cw4 * v.ig8 * v.ih2) pk.N
+def in4 : Int := tmod (v.m4 * v.h3 * v.cx) pk.N
+def in5 : Int := tmod (v.g4 * v.h9 * v.ce) pk.N
+/-- the five recomputed hash inputs -/
+def inputs : List Int := [v.in1, v.in2, v.in3, v.in4, v.in5]
+end View
+
+/-- one ok-inversion step through a bind, replacing the hypothesis. -/
+macro "bstep " h:ident " with " a:ident t:ident ha:ident : tactic =>
+  `(tactic| (obtain ⟨$a, $t, $ha, hnew__⟩ := bind_ok_inv $h; clear $h; rename' hnew__ => $h))
+
+/-- A run of the verifier that returns (does not panic) has a view, and returns whether the hash of
+the five inputs is the challenge. -/
+theorem nisp5Verify_view {π : SignaturePoK} {cpk : CommitmentPK} {pk : PublicKey}
+    {bases rev : List Int} {U : List Nat} {n : Nat} {tv tv' : List Draw} {b : Bool}
+    (h : nisp5Verify π cpk pk bases rev U n tv = .ok (b, tv')) :
+    ∃ v : View π cpk pk bases rev U n, b = (hashInts v.inputs == π.challenge) := by
+  unfold nisp5Verify at h
+  split at h
+  · cases h
+  simp only [] at h
+  bstep h with tCx t1 e_tCx
+  have e_tCx := tapeFree_eq_pure (mixLoop_tapeFree _ _ _ _ _ _ _ _ _ _ _) e_tCx
+  bstep h with g0 t2 e_g0
+  have e_g0 := tapeFree_eq_pure (TapeFree.idx _ _) e_g0
+  bstep h with a t3 e_a
+  have e_a := pw_eq_pure_of_ok e_a
+  bstep h with itCx t4 e_itCx
+  have e_itCx := tapeFree_eq_pure (divm_tapeFree _ _ _) e_itCx
+  bstep h with ib t5 e_ib
+  have e_ib := tapeFree_eq_pure (divm_tapeFree _ _ _) e_ib
+  bstep h with ib6 t6 e_ib6
+  have e_ib6 := pw_eq_pure_of_ok e_ib6
+  bstep h with ig t7 e_ig
+  have e_ig := tapeFree_eq_pure (divm_tapeFree _ _ _) e_ig
+  bstep h with ig8 t8 e_ig8
+  have e_ig8 := pw_eq_pure_of_ok e_ig8
+  bstep h with cc t9 e_cc
+  have e_cc := pw_eq_pure_of_ok e_cc
+  bstep h with g7 t10 e_g7
+  have e_g7 := pw_eq_pure_of_ok e_g7
+  bstep h with h1 t11 e_h1
+  have e_h1 := pw_eq_pure_of_ok e_h1
+  bstep h with cw t12 e_cw
+  have e_cw := pw_eq_pure_of_ok e_cw
+  bstep h with cw4 t13 e_cw4
+  have e_cw4 := pw_eq_pure_of_ok e_cw4
+  rw [e_ig, pure_bind, e_ig8, pure_bind] at h
+  bstep h with ih t14 e_ih
+  have e_ih := tapeFree_eq_pure (divm_tapeFree _ _ _) e_ih
+  bstep h with ih2 t15 e_ih2
+  have e_ih2 := pw_eq_pure_of_ok e_ih2
+  bstep h with m4 t16 e_m4
+  have e_m4 := tapeFree_eq_pure (mixLoop_tapeFree _ _ _ _ _ _ _ _ _ _ _) e_m4
+  bstep h with h3 t17 e_h3
+  have e_h3 := pw_eq_pure_of_ok e_h3
+  bstep h with cx t18 e_cx
+  have e_cx := pw_eq_pure_of_ok e_cx
+  bstep h with g4 t19 e_g4
+  have e_g4 := pw_eq_pure_of_ok e_g4
+  bstep h with h9 t20 e_h9
+  have e_h9 := pw_eq_pure_of_ok e_h9
+  bstep h with ce t21 e_ce
+  have e_ce := pw_eq_pure_of_ok e_ce
+  obtain ⟨rfl, -⟩ := ok_inj h
+  exact ⟨⟨tCx, g0, a, itCx, ib, ib6, ig, ig8, cc, g7, h1, cw, cw4, ih, ih2, m4, h3, cx, g4, h9, ce,
+    e_tCx, e_g0, e_a, e_itCx, e_ib, e_ib6, e_ig, e_ig8, e_cc, e_g7, e_h1, e_cw, e_cw4, e_ih, e_ih2,
+    e_m4, e_h3, e_cx, e_g4, e_h9, e_ce⟩, rfl⟩
+
+/-! ### tools for the soundness-type statements -/
+
+section tamper
+variable {N : Int}
+
+theorem pure_inj {α} {a b : α} (h : (pure a : M α) = pure b) : a = b := by
+  have := congrFun h []
+  exact (ok_inj this).1
+
+/-- a power of an invertible base -/
+theorem eq_can_of_pw (hA : ArithOK) (hN : 1 < N) {b e x : Int} (hb : IsU N b) (h : pw b e N = pure x) :
+    x = can N (e • rp N b) := by
+  rw [pw_unit hA hN hb] at h; exact (pure_inj h).symm
+
+theorem good_of_pw (hA : ArithOK) (hN : 1 < N) {b e x : Int} (hb : IsU N b) (h : pw b e N = pure x) :
+    Good N x := by rw [eq_can_of_pw hA hN hb h]; exact good_can hN _
+
+theorem eq_can_of_divm (hA : ArithOK) (hN : 1 < N) {b x : Int} (hb : IsU N b) (h : divm 1 b N = pure x) :
+    x = can N (-(rp N b)) := by
+  rw [divm_one_unit hA hN hb] at h; exact (pure_inj h).symm
+
+/-- `pow_mod` with a non-positive exponent that does not panic returns an invertible value, whatever
+the base. -/
+theorem good_of_pw_nonpos (hA : ArithOK) (hN : 1 < N) {b e x : Int} (he : e ≤ 0) (h : pw b e N = pure x) :
+    Good N x := by
+  have h := powMod_of_pw_eq_pure h
+  by_cases h0 : e = 0
+  · subst h0
+    rw [hA.powMod_nonneg b 0 N (by omega) (by omega)] at h
+    obtain rfl := Option.some.inj h
+    simp only [Int.toNat_zero, pow_zero]
+    rw [Int.emod_eq_of_lt (by omega) hN]
+    exact good_one
+  · rw [hA.powMod_neg b e N (by omega) (by omega)] at h
+    cases hi : invMod b N with
+    | none => rw [hi] at h; cases h
+    | some bi =>
+      rw [hi, Option.map_some] at h
+      obtain rfl := Option.some.inj h
+      obtain ⟨-, -, h2⟩ := hA.invMod_some b N bi hN hi
+      have hc : ((b : Int) : ZMod N.toNat) * (bi : ZMod N.toNat) = 1 := by
+        have : (((b * bi : Int)) : ZMod N.toNat) = ((1 : Int) : ZMod N.toNat) := by
+          rw [ZMod.intCast_eq_intCast_iff', Int.toNat_of_nonneg (by omega), h2]
+          exact (Int.emod_eq_of_lt (by omega) hN).symm
+        simpa using this
+      have hbi : IsU N bi := IsUnit.of_mul_eq_one _ (by rw [mul_comm]; exact hc)
+      refine ⟨Int.emod_nonneg _ (by omega), ?_⟩
+      have : ((bi ^ (-e).toNat % N : Int) : ZMod N.toNat) = ((bi ^ (-e).toNat : Int) : ZMod N.toNat) := by
+        rw [ZMod.intCast_eq_intCast_iff', Int.toNat_of_nonneg (by omega), Int.emod_emod_of_dvd _ (dvd_refl _)]
+      rw [isU_congr this]
+      unfold IsU at hbi ⊢
+      push_cast
+      exact hbi.pow _
+
+/-- Changing one exponent: if `P = co · b^s` and `P' = co · b^{s'}` have the same residue, with `co`
+and `b` invertible, then `(s − s') • [b] = 0`. -/
+theorem tamper_core (hA : ArithOK) (hN : 1 < N) {b : Int} (hb : IsU N b) {s s' x x' co P P' : Int}
+    (hx : pw b s N = pure x) (hx' : pw b s' N = pure x') (hco : IsU N co)
+    (hP : P = co * x) (hP' : P' = co * x') (heq : tmod P N = tmod P' N) :
+    (s - s') • rp N b = 0 := by
+  have e1 := eq_can_of_pw hA hN hb hx
+  have e2 := eq_can_of_pw hA hN hb hx'
+  have hc : ((P : Int) : ZMod N.toNat) = ((P' : Int) : ZMod N.toNat) := by
+    rw [← cast_tmod N P (by omega), ← cast_tmod N P' (by omega), heq]
+  have hr := rp_congr hc
+  rw [hP, hP', rp_mul hco (e1 ▸ isU_can hN _), rp_mul hco (e2 ▸ isU_can hN _), e1, e2, rp_can hN,
+    rp_can hN] at hr
+  have := add_left_cancel hr
+  rw [sub_smul, this, sub_self]
+
+theorem orderRelation_of_tamper (hN : 1 < N) {b : Int} (hb : IsU N b) {s s' : Int} (hs : s ≠ s')
+    (h : (s - s') • rp N b = 0) : OrderRelation N b :=
+  orderRelation_of_zsmul hN hb (by omega) h
+
+/-- the verifier's mixed product over invertible bases is invertible (and non-negative). -/
+theorem mixLoop_good (hA : ArithOK) (hN : 1 < N) (bases s5 rev : List Int) (U : List Nat) (c : Int)
+    (hb : ∀ a ∈ bases, IsU N a) (k i ih ir : Nat) (acc P : Int) (hacc : Good N acc)
+    (h : mixLoop N bases s5 rev U c k i ih ir acc = pure P) : Good N P := by
+  induction k generalizing i ih ir acc with
+  | zero =>
+    unfold mixLoop at h
+    exact pure_inj h ▸ hacc
+  | succ k ihk =>
+    have h := congrFun h []
+    unfold mixLoop at h
+    split at h
+    · bstep h with a t1 h1
+      bstep h with s t2 h2
+      bstep h with x t3 h3
+      obtain ⟨h1, -⟩ := idx_ok_iff.mp h1
+      have hx := good_of_pw hA hN (hb a (List.mem_of_getElem? h1)) (pw_eq_pure_of_ok h3)
+      exact ihk _ _ _ _ (good_mul hacc hx) (tapeFree_eq_pure (mixLoop_tapeFree ..) h)
+    · bstep h with m t1 h1
+      bstep h with a t2 h2
+      bstep h with x t3 h3
+      obtain ⟨h2, -⟩ := idx_ok_iff.mp h2
+      have hx := good_of_pw hA hN (hb a (List.mem_of_getElem? h2)) (pw_eq_pure_of_ok h3)
+      exact ihk _ _ _ _ (good_mul hacc hx) (tapeFree_eq_pure (mixLoop_tapeFree ..) h)
+
+end tamper
+
+/-! ### two runs of the verifier's loop on different revealed messages -/
+
+section diff
+variable {N : Int}
+
+/-- Same proof, two lists of revealed messages (`g j`, `g' j` = the message shown at position `j`):
+the two mixed products differ by `Π_{j revealed} base_j^{(g j − g' j)(1 + c)}`. -/
+theorem mixLoop_diff_rev (hA : ArithOK) (hN : 1 < N) (bases s5 rev rev' : List Int) (U : List Nat)
+    (c : Int) (hb : ∀ a ∈ bases, IsU N a) (g g' : Nat → Int) (k i ih ir : Nat) (acc acc' P P' : Int)
+    (hacc : Good N acc) (hacc' : Good N acc')
+    (hr : rev.drop ir = ((List.range' i k).filter (fun j => !U.contains j)).map g)
+    (hr' : rev'.drop ir = ((List.range' i k).filter (fun j => !U.contains j)).map g')
+    (h : mixLoop N bases s5 rev U c k i ih ir acc = pure P)
+    (h' : mixLoop N bases s5 rev' U c k i ih ir acc' = pure P') :
+    rp N P - rp N P' = rp N acc - rp N acc' + ∑ j ∈ Finset.Ico i (i + k),
+      (if U.contains j then 0 else (g j - g' j) * (1 + c)) • rp N (bases.getD j 1) := by
+  induction k generalizing i ih ir acc acc' with
+  | zero =>
+    unfold mixLoop at h h'
+    rw [← pure_inj h, ← pure_inj h']; simp
+  | succ k ihk =>
+    have h := congrFun h []
+    have h' := congrFun h' []
+    unfold mixLoop at h h'
+    rw [List.range'_succ] at hr hr'
+    by_cases hc : U.contains i = true
+    · rw [if_pos hc] at h h'
+      rw [List.filter_cons_of_neg (by rw [hc]; simp)] at hr hr'
+      bstep h with a t1 h1
+      bstep h with s t2 h2
+      bstep h with x t3 h3
+      bstep h' with a' t1' h1'
+      bstep h' with s' t2' h2'
+      bstep h' with x' t3' h3'
+      obtain ⟨h1, -⟩ := idx_ok_iff.mp h1
+      obtain ⟨h1', -⟩ := idx_ok_iff.mp h1'
+      obtain ⟨h2, -⟩ := idx_ok_iff.mp h2
+      obtain ⟨h2', -⟩ := idx_ok_iff.mp h2'
+      obtain rfl : a = a' := Option.some.inj (h1.symm.trans h1')
+      obtain rfl : s = s' := Option.some.inj (h2.symm.trans h2')
+      have haU := hb a (List.mem_of_getElem? h1)
+      have hx := eq_can_of_pw hA hN haU (pw_eq_pure_of_ok h3)
+      have hx' := eq_can_of_pw hA hN haU (pw_eq_pure_of_ok h3')
+      have := ihk (i + 1) (ih + 1) ir (acc * x) (acc' * x')
+        (good_mul hacc (hx ▸ good_can hN _)) (good_mul hacc' (hx' ▸ good_can hN _)) hr hr'
+        (tapeFree_eq_pure (mixLoop_tapeFree ..) h) (tapeFree_eq_pure (mixLoop_tapeFree ..) h')
+      rw [this, sum_Ico_succ, if_pos hc, rp_mul hacc.2 (hx ▸ isU_can hN _),
+        rp_mul hacc'.2 (hx' ▸ isU_can hN _), hx, hx', rp_can hN]
+      module
+    · rw [if_neg hc] at h h'
+      rw [List.filter_cons_of_pos (by simpa using hc), List.map_cons] at hr hr'
+      obtain ⟨hr1, hr2⟩ := drop_cons_inv hr
+      obtain ⟨hr1', hr2'⟩ := drop_cons_inv hr'
+      bstep h with m t1 h1
+      bstep h with a t2 h2
+      bstep h with x t3 h3
+      bstep h' with m' t1' h1'
+      bstep h' with a' t2' h2'
+      bstep h' with x' t3' h3'
+      obtain ⟨h1, -⟩ := idx_ok_iff.mp h1
+      obtain ⟨h1', -⟩ := idx_ok_iff.mp h1'
+      obtain ⟨h2, -⟩ := idx_ok_iff.mp h2
+      obtain ⟨h2', -⟩ := idx_ok_iff.mp h2'
+      obtain rfl : a = a' := Option.some.inj (h2.symm.trans h2')
+      obtain rfl : m = g i := Option.some.inj (h1.symm.trans hr1)
+      obtain rfl : m' = g' i := Option.some.inj (h1'.symm.trans hr1')
+      have haU := hb a (List.mem_of_getElem? h2)
+      have ha' : bases.getD i 1 = a := by rw [List.getD_eq_getElem?_getD, h2]; rfl
+      have hx := eq_can_of_pw hA hN haU (pw_eq_pure_of_ok h3)
+      have hx' := eq_can_of_pw hA hN haU (pw_eq_pure_of_ok h3')
+      have := ihk (i + 1) ih (ir + 1) (acc * x) (acc' * x')
+        (good_mul hacc (hx ▸ good_can hN _)) (good_mul hacc' (hx' ▸ good_can hN _)) hr2 hr2'
+        (tapeFree_eq_pure (mixLoop_tapeFree ..) h) (tapeFree_eq_pure (mixLoop_tapeFree ..) h')
+      rw [this, sum_Ico_succ, if_neg hc, rp_mul hacc.2 (hx ▸ isU_can hN _),
+        rp_mul hacc'.2 (hx' ▸ isU_can hN _), hx, hx', rp_can hN, rp_can hN, ha']
+      module
+
+end diff
+
 end Zk.ClSpok
